@@ -26,6 +26,10 @@ claim("C07", "panic/assertion site enumeration over the run-path call graph with
       "Decides that no explicit panic or unjustified unchecked type assertion is reachable in the run path, that expression-resolution errors are routed to report+cancel, and that every "
       "call into the expression evaluator is recover-guarded (C07.R1-R5). Implicit panics other than those listed and panics inside dependencies are not decided.", NOTE)
 
+claim("C17", "guarded-by inference: lockset analysis + thread-region ownership over field accesses, captured variables and package-level state",
+      "Decides a guarded-by discipline sufficient for race freedom of loopState, plugin.runningStep, foreach.runningStep, goroutine-captured locals and package-level variables (C17.R1-R3). "
+      "It is a sufficient discipline, not a race detector: races inside dependencies and happens-before arguments the discipline does not see are not decided.", NOTE)
+
 ALL = ["C%02d" % i for i in range(1, 21)]
 for pid in ALL:
     if pid not in P:
